@@ -132,27 +132,27 @@ func runC09(c *Ctx) {
 
 	// frozen classification of journal-free writers (one symbol each, with reason)
 	invalidating := map[string]string{
-		"(*core/state.StateDB).Finalise":             "end of transaction: clears the journal (clearJournalAndRefund)",
-		"(*core/state.StateDB).Commit":               "end of block: defers clearJournalAndRefund",
-		"(*core/state.StateDB).Reset":                "re-initialises the whole StateDB and clears the journal",
-		"(*core/state.StateDB).DeleteSuicides":       "legacy finaliser: clears the journal",
-		"(*core/state.StateDB).Copy":                 "writes only the fresh copy",
-		"(*core/state.stateObject).deepCopy":         "writes only the fresh copy",
-		"core/state.New":                             "constructor",
-		"core/state.newObject":                       "constructor",
+		"(*core/state.StateDB).Finalise":              "end of transaction: clears the journal (clearJournalAndRefund)",
+		"(*core/state.StateDB).Commit":                "end of block: defers clearJournalAndRefund",
+		"(*core/state.StateDB).Reset":                 "re-initialises the whole StateDB and clears the journal",
+		"(*core/state.StateDB).DeleteSuicides":        "legacy finaliser: clears the journal",
+		"(*core/state.StateDB).Copy":                  "writes only the fresh copy",
+		"(*core/state.stateObject).deepCopy":          "writes only the fresh copy",
+		"core/state.New":                              "constructor",
+		"core/state.newObject":                        "constructor",
 		"(*core/state.StateDB).clearJournalAndRefund": "the journal invalidation itself (journal, validRevisions and refund reset together)",
-		"(*core/state.stateObject).updateRoot":       "finalisation helper: called from IntermediateRoot/Commit only (checked)",
-		"(*core/state.stateObject).CommitTrie":       "finalisation helper: called from Commit only (checked)",
-		"(*core/state.stateObject).updateTrie":       "finalisation helper: flushes dirty storage into the trie; content preserving for reads",
-		"(*core/state.StateDB).deleteStateObject":    "finalisation helper: called from Finalise/IntermediateRoot/Commit (checked)",
-		"(*core/state.StateDB).updateStateObject":    "finalisation helper (writes the trie only)",
-		"(*core/state.stateObject).Code":             "content-preserving cache fill of code from the database",
-		"(*core/state.stateObject).GetState":         "content-preserving cache fill of cachedStorage from the trie",
-		"(*core/state.StateDB).getStateObject":       "content-preserving cache fill of stateObjects from the trie (via setStateObject)",
-		"(*core/state.StateDB).setStateObject":       "raw setter used by getStateObject (cache fill), createObject and resetObjectChange.undo",
-		"(*core/state.StateDB).MarkStateObjectDirty": "dirty-set bookkeeping callback (onDirty); journalled through touchChange/createObjectChange",
-		"(*core/state.StateDB).IntermediateRoot":     "calls Finalise first (journal cleared) then finalisation helpers",
-		"(*core/state.ManagedState).SetState":        "replaces the whole managed StateDB (pool-side helper, not on the consensus path)",
+		"(*core/state.stateObject).updateRoot":        "finalisation helper: called from IntermediateRoot/Commit only (checked)",
+		"(*core/state.stateObject).CommitTrie":        "finalisation helper: called from Commit only (checked)",
+		"(*core/state.stateObject).updateTrie":        "finalisation helper: flushes dirty storage into the trie; content preserving for reads",
+		"(*core/state.StateDB).deleteStateObject":     "finalisation helper: called from Finalise/IntermediateRoot/Commit (checked)",
+		"(*core/state.StateDB).updateStateObject":     "finalisation helper (writes the trie only)",
+		"(*core/state.stateObject).Code":              "content-preserving cache fill of code from the database",
+		"(*core/state.stateObject).GetState":          "content-preserving cache fill of cachedStorage from the trie",
+		"(*core/state.StateDB).getStateObject":        "content-preserving cache fill of stateObjects from the trie (via setStateObject)",
+		"(*core/state.StateDB).setStateObject":        "raw setter used by getStateObject (cache fill), createObject and resetObjectChange.undo",
+		"(*core/state.StateDB).MarkStateObjectDirty":  "dirty-set bookkeeping callback (onDirty); journalled through touchChange/createObjectChange",
+		"(*core/state.StateDB).IntermediateRoot":      "calls Finalise first (journal cleared) then finalisation helpers",
+		"(*core/state.ManagedState).SetState":         "replaces the whole managed StateDB (pool-side helper, not on the consensus path)",
 	}
 
 	c.Rule("C09-R1", "journal-before-mutate with computed undo pairing", func() {
